@@ -145,6 +145,33 @@ def one(ctx: Ctx, cs, pname=None, **over):
     export_rows_monitor(ctx, z, case, 'eKern')
     n = compare(ctx, doc, y, z, case)
     ctx.mon('cells_compared', n)
+    # the same conservation must hold for the same Document after other exports were taken from it
+    import random
+    import kernpy as kp
+    rng = random.Random(cs ^ 0xC03)
+    nsp = len(doc.headers)
+    M = len(d.measure_start_tree_stages)
+    for _ in range(3):
+        kw = {}
+        if M and rng.random() < 0.7:
+            a_ = rng.randint(1, M)
+            kw['from_measure'] = a_
+            if rng.random() < 0.6:
+                kw['to_measure'] = rng.randint(a_, M)
+        if rng.random() < 0.6:
+            kw['spine_ids'] = sorted(rng.sample(range(nsp), rng.randint(1, nsp)))
+        if rng.random() < 0.4:
+            kw['spine_types'] = rng.sample(sorted(set(doc.headers)), 1)
+        if rng.random() < 0.5:
+            kw['encoding'] = rng.choice(kpx.ENCODINGS)
+        if rng.random() < 0.4:
+            kw['exclude'] = {rng.choice(list(kp.TokenCategory))}
+        kpx.dumps(d, **kw)
+        ctx.mon('intervening_exports')
+    y_again, exc3 = kpx.dumps(d)
+    if exc3 is not None or y_again != y:
+        ctx.violation('export-changes-after-other-exports', 'the default export of the same Document differs after other exports '
+                      f'(measure ranges, spine selections, encodings, filters) were taken from it: {"raised " + repr(exc3) if exc3 else ""}', case)
     if nontrivial(doc):
         ctx.nontriv(x)
     if len(ctx.samples) < 2 and len(x) < 700 and nontrivial(doc):
@@ -155,8 +182,8 @@ def run(ctx: Ctx):
     ctx.rule = ('documents of the C01 generator; expected grid = source rows minus global comments, blank lines and all-null rows; '
                 'non-note cells verbatim, barlines = "="/"==" + type + fermata (number removed), each note/rest checked structurally on '
                 'the eKern export (duration marks multiset, pitch letters, accidental, signifier set; chord notes: own <= exported <= '
-                'chord union), kern export = eKern without separators; row/column positions compared. A second workload explores text '
-                'cells containing the separator characters. Non-trivial = >= 3 cell kinds and a note with accidental or non-plain '
+                'chord union), kern export = eKern without separators; row/column positions compared. The default export is taken again after three other exports of the same '
+                'Document and must be unchanged. A second workload explores text cells containing the separator characters. Non-trivial = >= 3 cell kinds and a note with accidental or non-plain '
                 'duration; distinct by source text.')
     ctx.assumptions = ['the abstract document of gen/doc.py is the independent description of every cell',
                        ':!: may be exported as :!: or as the documented correction :|!|:']
